@@ -176,6 +176,36 @@ def model_policies(m):
     return dict(scope="restore" if o[0] == 1 else "pop", empty="skip" if o[1] == 1 else "fall-through", tolerant=bool(o[2]))
 
 
+KIND_OF = {0: "for", 1: "endfor", 2: "block", 3: "endblock", 4: "plain"}
+
+
+def model_desugar(m, rows, ctx):
+    """Comp/Desugar.v: desugar (wire engine 103) -> ('ok', [(kind, id, text)]) | ('err', class) | ('notliteral', row) | None"""
+    o = parse_sexp(m.ask(f"(103 1 0 ({' '.join(enc_raw(r) for r in rows)}) {enc_ctx(ctx)})"))
+    if o in ([999998], [999997]):
+        return None
+    if o[0] == 1:
+        return ("err", ERR.get(o[1], str(o[1])))
+    out = []
+    for r in o[1]:
+        kind, inc, rid, text, vs, _it = r
+        if inc != [0] or vs != [] or kind not in (2, 3, 4) or any(sg[0] != 0 for sg in rid + text):
+            return ("notliteral", r)
+        out.append((KIND_OF[kind], "".join(dec_str(sg[1]) for sg in rid), "".join(dec_str(sg[1]) for sg in text)))
+    return ("ok", out)
+
+
+def desugared_csv(des):
+    rows = [dict(kind=k, inc="true", id=[("lit", i)] if i else [], text=[("lit", t)] if t else []) for k, i, t in des]
+    return sheet_csv(rows, [""] * len(rows))
+
+
+def toks(events):
+    """what FlowParser builds from: rows handed to _parse_row, NodeGroups pushed, groups popped and registered under an id"""
+    return [("row", e[1], e[2]) if e[0] == "row" else ("push",) if e[0] == "push" else ("pop", e[1])
+            for e in events if e[0] in ("row", "push", "end")]
+
+
 class Spy:
     """Observes, for the duration of a `with`, the events FlowParser acts on."""
 
@@ -318,11 +348,12 @@ class _RefError(Exception):
     pass
 
 
-def reference_rows(rows, cx):
-    """What the property says a (well nested) sugared sheet means: the rows handed on, in order,
-    when every loop is replaced by its body once per element with the loop and index variable
-    substituted (LEXICAL scope: an environment per iteration, the outer one untouched) and
-    excluded rows/blocks are dropped unevaluated.  -> ('ok', [(id, text)]) | ('err', why)"""
+def reference_desugar(rows, cx):
+    """What the property says a (well nested) sugared sheet means — its DESUGARED form: every loop
+    replaced by a block (same rendered row id) holding its body once per element, in order, with
+    the loop and index variable substituted (LEXICAL scope: an environment per iteration, the outer
+    one untouched); rows and blocks whose include_if is false dropped unevaluated; every cell
+    rendered.  -> ('ok', [(kind, id, text)]) with kind in plain/block/endblock | ('err', why)"""
     out = []
 
     def render(segs, env):
@@ -359,13 +390,14 @@ def reference_rows(rows, cx):
             r = rows[i]
             if r["kind"] == "plain":
                 if included(r, env):
-                    out.append((render(r.get("id", []), env), render(r.get("text", []), env)))
+                    out.append(("plain", render(r.get("id", []), env), render(r.get("text", []), env)))
                 i += 1
                 continue
             end = matching_end(i)
             if included(r, env):
-                render(r.get("id", []), env)
+                head = ("block", render(r.get("id", []), env), render(r.get("text", []), env))
                 if r["kind"] == "block":
+                    out.append(head)
                     body(i + 1, end, env)
                 else:
                     it = r["iter"]
@@ -378,12 +410,14 @@ def reference_rows(rows, cx):
                     vs = r.get("vars", [])
                     if not vs or not vs[0]:
                         raise _RefError("no-loop-variable")
+                    out.append(head)
                     for n, e in enumerate(elems):
                         env2 = dict(env)
                         env2[vs[0]] = e
                         if len(vs) > 1 and vs[1]:
                             env2[vs[1]] = str(n)
                         body(i + 1, end, env2)
+                out.append(("endblock", "", ""))      # (generated terminators carry no template)
             i = end + 1
 
     try:
@@ -391,6 +425,12 @@ def reference_rows(rows, cx):
     except _RefError as e:
         return ("err", str(e))
     return ("ok", out)
+
+
+def reference_rows(rows, cx):
+    """the rows handed on, in order, under the unrolled lexically scoped reading -> ('ok', [(id, text)]) | ('err', why)"""
+    r = reference_desugar(rows, cx)
+    return ("ok", [(i, t) for k, i, t in r[1] if k == "plain"]) if r[0] == "ok" else r
 
 
 def well_nested(rows):
@@ -478,6 +518,17 @@ def oracles(ir, before, never, empty, ref=None):
     return out
 
 
+def desugared_oracle(ir, ir2):
+    """ir = the implementation on the sugared sheet (accepted), ir2 = on its desugared form -> list of summaries"""
+    if ir2[0] != "ok":
+        return [f"the sheet is accepted but its desugared form (loops unrolled into blocks, excluded content removed) is rejected ({ir2[1]})"]
+    if toks(ir2[1]) != toks(ir[1]):
+        return [f"FlowParser is handed {toks(ir[1])!r} for the sheet but {toks(ir2[1])!r} for its desugared form"]
+    if ir2[2]:
+        return [f"the desugared sheet leaves {ir2[2]!r} in the empty templating context"]
+    return []
+
+
 def judge(ctx, rows, cx, spell, dist, nontrivial):
     v, m = ctx.v, ctx.model
     csvtext = sheet_csv(rows, spell)
@@ -493,17 +544,38 @@ def judge(ctx, rows, cx, spell, dist, nontrivial):
     ref = reference_rows(rows, cx) if well_nested(rows) else None
     dist["reference_reading_ok"] += bool(ref and ref[0] == "ok")
     rep = dict(fn="blocks", csv=csvtext, ctx=cx, never=never, empty=empty, ref=ref)
+    failed = False
     for summary in oracles(ir, str_ctx(cx), never, empty, ref)[:1]:
         v.failing_input(key, summary, rep)
+        failed = True
+    # ---- the unrolling theorem's statement, on the implementation: the desugared sheet (reference desugaring; it is
+    # compared with the model's below) is accepted from the EMPTY context and FlowParser is handed the same rows and
+    # pushes / registers the same groups in the same order
+    rd = reference_desugar(rows, cx) if well_nested(rows) else None
+    if rd and rd[0] == "ok" and ir[0] == "ok" and not failed and dist["desugared_compiled"] < dist["desugared_budget"]:
+        dist["desugared_compiled"] += 1
+        des_csv = desugared_csv(rd[1])
+        for summary in desugared_oracle(ir, impl_run(des_csv, {}))[:1]:
+            v.failing_input(key, summary, dict(rep, des_csv=des_csv))
     # ---- correspondence
     if not m:
         return
+    md = model_desugar(m, rows, cx)
+    if md is None or md[0] == "notliteral":
+        ctx.disagree("blocks: desugar (model) did not deliver a literal sheet", rep, repr(md), "")
+    elif rd is not None:
+        dist["desugar_vs_reference"] += 1
+        if md != rd:
+            ctx.disagree("blocks: desugar (Comp/Desugar.v) differs from the reference desugaring", rep, repr(md), repr(rd))
     mo = model_run(m, rows, cx)
     if mo is None:
         ctx.disagree("blocks: model rejected the sheet", rep, "BADINPUT", "")
         return
     if mo[0] == "err" and mo[1] == "FUEL":
         return
+    if md is not None and md[0] != "notliteral" and ((md[0] == "ok") != (mo[0] == "ok") or (md[0] == "err" and tuple(md) != tuple(mo[:2]))):
+        # C03_desugar_defined_iff_sheet_accepted / C03_desugar_fails_iff_sheet_fails, on the extracted code
+        ctx.disagree("blocks: desugar defined/failing differently from the model's own reading of the sheet", rep, repr(md), repr(mo[:2]))
     if ir[0] == "err" and ir[1] == "graph":
         dist["graph_error_outside_model"] += 1
         return
@@ -529,7 +601,8 @@ def run(ctx, n):
     """the directed cases, then n generated sheets; returns the set of non-trivial cases"""
     rng = ctx.rng
     dist = {"ok": 0, "err": 0, "graph_error_outside_model": 0, "with_shadowing": 0, "with_empty_loop": 0, "with_excluded_block": 0,
-            "scope_oracle_checked": 0, "reference_reading_ok": 0}
+            "scope_oracle_checked": 0, "reference_reading_ok": 0, "desugar_vs_reference": 0, "desugared_compiled": 0,
+            "desugared_budget": max(60, n * 2 // 5)}
     nontrivial = set()
     if ctx.model:
         ctx.stats["loop_mechanics_of_the_code"] = model_policies(ctx.model)
@@ -547,4 +620,8 @@ def run(ctx, n):
 def replay(r):
     """True when the property's statements hold on this input"""
     ir = impl_run(r["csv"], r["ctx"])
-    return not oracles(ir, str_ctx(r["ctx"]), r.get("never", []), r.get("empty", False), r.get("ref"))
+    if oracles(ir, str_ctx(r["ctx"]), r.get("never", []), r.get("empty", False), r.get("ref")):
+        return False
+    if r.get("des_csv") and ir[0] == "ok":
+        return not desugared_oracle(ir, impl_run(r["des_csv"], {}))
+    return True
